@@ -112,6 +112,181 @@ def counter_models(slices: Optional[Dict] = None) -> List[Tuple[str, Any, Any, A
     return bad
 
 
+# ------------------------------------------------------------------------------------------------ (1b) keyword arguments of the other loaders
+ACL_HOLDERS = [("router", "acl"), ("wireless-router", "acl")] + [("firewall", a) for a in (
+    "internal_inbound_acl", "internal_outbound_acl", "dmz_inbound_acl", "dmz_outbound_acl", "external_inbound_acl", "external_outbound_acl")]
+KW_OWN_GRID = [XR.ABSENT, None, "", "10.9.0.10"]
+KW_ALT_GRID = [XR.ABSENT, None, "10.9.0.77"]
+
+
+def _app(name):
+    return lambda v: ("app", name, v)
+
+
+def kw_spec(function: str, callee: str, keyword: str):
+    """`kwSpec` of Props/C20Resolve.lean: (own key, alternative key, value as a function of (own, alt)) or None."""
+    opt = lambda c, d: (lambda o, a: c(d if o is XR.ABSENT else o))
+    req = lambda c: (lambda o, a: XR.RAISES if o is XR.ABSENT else c(o))
+    tl = lambda c: (lambda o, a: c(o) if (o is not XR.ABSENT and bool(o)) else None)
+    addr = lambda o, a: o if o is not XR.ABSENT else (a if a is not XR.ABSENT else None)
+    ident = lambda v: v
+    if callee == "add_rule":
+        t = {"src_ip_address": ("src_ip", "src_ip_address", addr), "dst_ip_address": ("dst_ip", "dst_ip_address", addr),
+             "src_wildcard_mask": ("src_wildcard_mask", "", opt(ident, None)), "dst_wildcard_mask": ("dst_wildcard_mask", "", opt(ident, None)),
+             "src_port": ("src_port", "", tl(_app("PORT_LOOKUP[]"))), "dst_port": ("dst_port", "", tl(_app("PORT_LOOKUP[]"))),
+             "protocol": ("protocol", "", tl(_app("PROTOCOL_LOOKUP[]"))), "action": ("action", "", req(_app("ACLAction[]")))}
+        return t.get(keyword)
+    if callee == "add_route":
+        t = {"address": opt(_app("IPv4Address"), None), "next_hop_ip_address": opt(_app("IPv4Address"), None),
+             "subnet_mask": opt(_app("IPv4Address"), "255.255.255.0"), "metric": opt(_app("float"), 0)}
+        return (keyword, "", t[keyword]) if keyword in t else None
+    if callee in ("configure_port", "NIC"):
+        if keyword == "ip_address" or callee == "NIC" and keyword == "subnet_mask":
+            return (keyword, "", req(ident))
+        if keyword == "subnet_mask":
+            return (keyword, "", opt(_app("IPv4Address"), "255.255.255.0"))
+    if function == "Firewall.from_config" and callee in ("configure_internal_port", "configure_external_port", "configure_dmz_port"):
+        if keyword == "ip_address":
+            return (keyword, "", opt(_app("IPV4Address"), None))
+        if keyword == "subnet_mask":
+            return (keyword, "", opt(_app("IPV4Address"), "255.255.255.0"))
+    return None
+
+
+def _same(a, b) -> bool:
+    return a is b or (type(a) is type(b) and a == b)
+
+
+def kw_counter_models(rows: Optional[List[Dict]] = None) -> List[Tuple[Dict, Any, Any, Any, Any]]:
+    """(row, own, alt, translated value, specified value) where a REGENERATED keyword expression of `Router` / `Firewall` /
+    `WirelessRouter.from_config` and `kwSpec` differ on the value grid (a row without a specification differs everywhere)."""
+    rows = rows if rows is not None else XR.kwarg_sites()
+    bad = []
+    for r in rows:
+        sp = kw_spec(r["function"], r["callee"], r["keyword"])
+        for o in KW_OWN_GRID + [0, "TCP", "HTTP"]:
+            for a in (KW_ALT_GRID if (r["alt_key"] or (sp and sp[1])) else [XR.ABSENT]):
+                got = XR.evaluate(r["expr"], own=o, dflt=a)
+                if sp is None or (r["own_key"], r["alt_key"]) != (sp[0], sp[1]):
+                    bad.append((r, o, a, got, "<no specification for this keyword / these keys>"))
+                    break
+                want = sp[2](o, a)
+                if not _same(got, want):
+                    bad.append((r, o, a, got, want))
+    return bad
+
+
+def place_acl(kind: str, aclname: str, side: str, own, alt, own_key: Optional[str] = None, alt_key: Optional[str] = None) -> Dict:
+    """A scenario whose `kind` node has ONE rule in ACL `aclname` whose `side` (src / dst) address is written `own` under the
+    shipped spelling and `alt` under the documented one (ABSENT = key not written)."""
+    cfg = _base()
+    rule: Dict[str, Any] = {"action": "DENY", "protocol": "TCP"}
+    ok, ak = own_key or f"{side}_ip", alt_key or f"{side}_ip_address"
+    if alt is not XR.ABSENT:          # the documented spelling first in the mapping: order of keys must not matter
+        rule[ak] = alt
+    if own is not XR.ABSENT:
+        rule[ok] = own
+    rule[f"{side}_wildcard_mask"] = "0.0.0.255"
+    if kind == "router":
+        n = {"hostname": "r1", "type": "router", "num_ports": 3, "ports": {1: {"ip_address": "10.9.0.1", "subnet_mask": "255.255.255.0"}},
+             "acl": {5: rule}}
+    elif kind == "wireless-router":
+        n = {"hostname": "w1", "type": "wireless-router", "router_interface": {"ip_address": "10.9.0.1", "subnet_mask": "255.255.255.0"},
+             "wireless_access_point": {"ip_address": "10.77.0.1", "subnet_mask": "255.255.255.0", "frequency": "WIFI_2_4"}, "acl": {5: rule}}
+    else:
+        n = {"hostname": "f1", "type": "firewall",
+             "ports": {"external_port": {"ip_address": "10.0.9.1", "subnet_mask": "255.255.255.252"},
+                       "internal_port": {"ip_address": "10.9.0.1", "subnet_mask": "255.255.255.0"},
+                       "dmz_port": {"ip_address": "10.9.1.1", "subnet_mask": "255.255.255.0"}},
+             "acl": {a: ({5: rule} if a == aclname else {23: {"action": "PERMIT", "protocol": "ICMP"}})
+                     for a in ("internal_inbound_acl", "internal_outbound_acl", "dmz_inbound_acl", "dmz_outbound_acl")}}
+        if aclname.startswith("external"):
+            n["acl"][aclname] = {5: rule}
+    cfg["simulation"]["network"]["nodes"] += [n, _host()]
+    return cfg
+
+
+def acl_spelling_grid() -> List[Tuple[str, Dict, Dict]]:
+    """Both spellings of an ACL address x {absent, None, '', an address} on every ACL of every router-like node type."""
+    out = []
+    for kind, aclname in ACL_HOLDERS:
+        for side in ("src", "dst"):
+            for o in KW_OWN_GRID:
+                if o == "":
+                    continue      # '' is refused loudly by add_rule ("Address cannot be empty"): not a well-formed file
+                for a in KW_ALT_GRID:
+                    out.append((f"acl-spelling:{kind}:{aclname}:{side}:own={_tag(o)}:alt={_tag(a)}", place_acl(kind, aclname, side, o, a),
+                                {"site": f"acl-spelling:{kind}", "own": _tag(o), "dflt": _tag(a)}))
+    return out
+
+
+def place_kw(row: Dict, own, alt) -> Optional[Dict]:
+    """The scenario for a counter-model of a keyword row (ACL rule keywords of the three router-like loaders)."""
+    kind = {"Router.from_config": "router", "Firewall.from_config": "firewall", "WirelessRouter.from_config": "wireless-router"}.get(row["function"])
+    if kind is None or row["callee"] != "add_rule":
+        return None
+    side = "dst" if row["keyword"].startswith("dst") else "src"
+    # only values a well-formed file can carry there are written into a scenario ('' as an ADDRESS, 0, a text that is no port name are
+    # refused loudly by add_rule / the lookup tables under every version of the loader: those grid points stay with the theorem)
+    is_addr = lambda v: v is XR.ABSENT or v is None or (isinstance(v, str) and v.count(".") == 3)
+    if row["keyword"] in ("src_ip_address", "dst_ip_address"):
+        if not (is_addr(own) and is_addr(alt)):
+            return None
+        return [place_acl(kind, a, side, own, alt, row["own_key"], row["alt_key"] or None) for k, a in ACL_HOLDERS if k == kind]
+    if row["keyword"] not in ("src_port", "dst_port", "protocol") or not (own is XR.ABSENT or own in (None, "", "HTTP", "TCP")) \
+            or (own == "HTTP") != (row["keyword"] != "protocol") and own in ("HTTP", "TCP"):
+        return None
+    out = []
+    for k, a in ACL_HOLDERS:
+        if k == kind:
+            c = place_acl(kind, a, side, "10.9.0.10", XR.ABSENT)
+            for n in c["simulation"]["network"]["nodes"]:
+                acl = n.get("acl") or {}
+                for rule in ([acl.get(5)] if kind != "firewall" else [(acl.get(a) or {}).get(5)]):
+                    if rule is not None:
+                        rule.pop("protocol", None)
+                        if own is not XR.ABSENT:
+                            rule[row["own_key"]] = own
+            out.append(c)
+    return out
+
+
+# ------------------------------------------------------------------------------------------------ (1c) state of configured software right after loading
+def load_state_cases() -> List[Tuple[str, Dict, Dict]]:
+    """A configured red application on a two-host LAN (with its target service): right after loading, every piece of software is in
+    its initial state (kill-chain stage = the class's initial member) and that state does not depend on the random generators."""
+    out = []
+    variants = [
+        ("dos-bot:repeat-false", "dos-bot", {"target_ip_address": "10.9.0.11", "target_port": "POSTGRES_SERVER", "port_scan_p_of_success": 0.5,
+                                             "repeat": False, "max_sessions": 5}),
+        ("dos-bot:repeat-true", "dos-bot", {"target_ip_address": "10.9.0.11", "target_port": "POSTGRES_SERVER", "port_scan_p_of_success": 0.5,
+                                            "repeat": True, "max_sessions": 5}),
+        ("dos-bot:target-only", "dos-bot", {"target_ip_address": "10.9.0.11", "target_port": "POSTGRES_SERVER"}),
+        ("dos-bot:unconfigured", "dos-bot", None),
+        ("data-manipulation-bot", "data-manipulation-bot", {"server_ip": "10.9.0.11", "payload": "DELETE", "port_scan_p_of_success": 0.5,
+                                                            "data_manipulation_p_of_success": 0.5}),
+        ("ransomware-script", "ransomware-script", {"server_ip": "10.9.0.11"}),
+    ]
+    for tag, typ, opts in variants:
+        for state in (None, "OFF"):
+            cfg = _base()
+            cfg["game"]["ports"] = ["POSTGRES_SERVER", "HTTP"]
+            h1, h2 = _host("h1", "computer", 10), _host("h2", "server", 11)
+            e: Dict[str, Any] = {"type": typ}
+            if opts is not None:
+                e["options"] = dict(opts)
+            h1["applications"] = [e] + ([{"type": "database-client", "options": {"db_server_ip": "10.9.0.11"}}] if typ != "dos-bot" else [])
+            if state:
+                h1["operating_state"] = state
+            h2["services"] = [{"type": "database-service"}]
+            cfg["simulation"]["network"]["nodes"] += [_switch(), h1, h2]
+            cfg["simulation"]["network"]["links"] += [
+                {"endpoint_a_hostname": "sw1", "endpoint_a_port": 1, "endpoint_b_hostname": "h1", "endpoint_b_port": 1},
+                {"endpoint_a_hostname": "sw1", "endpoint_a_port": 2, "endpoint_b_hostname": "h2", "endpoint_b_port": 1}]
+            out.append((f"load-state:{tag}:{state or 'ON'}", cfg, {"site": "load-state:" + typ, "own": tag, "dflt": state or "ON"}))
+    return out
+
+
 # ------------------------------------------------------------------------------------------------ (2) schema-driven falsy values
 def _falsy_of(annotation) -> List[Any]:
     """Falsy values of a field's declared type (Optional[...] unwrapped)."""
